@@ -6,7 +6,7 @@
 From Coq Require Import ZArith Reals Lia Lra Psatz SpecFloat Bool String List.
 From Flocq Require Import Core BinarySingleNaN Relative.
 From SSJ Require Import F64 F64Spec PyNum FilterUtilsGen HelperGen TokenOrdering Measures Filters Joins Api
-                        JoinSpec MetaSpec LawsSpec Laws LawsPipe.
+                        JoinSpec MetaSpec LawsSpec Laws LawsPipe CosSelf.
 Open Scope string_scope.
 Open Scope R_scope.
 
@@ -60,15 +60,26 @@ Proof.
 Qed.
 
 (* the hypothesis of pipeline_law for JACCARD / COSINE / DICE, from finiteness of the raw score of
-   every reported pair *)
+   every reported pair and, for equal token SETS listed in different orders (where the matcher's
+   similarity function misses its exact-match shortcut and evaluates the formula at o = a = b),
+   from the fact that the formula's value rounds to 1.0 (Proofs/CosSelf.v: self_round_jcd for
+   sets of fewer than 2^20 tokens) *)
 Theorem round_agrees_jcd c m : is_jcd m = true ->
   (forall x y, cmp_op (j_op c) (reported_score m x y) (j_t c) = true ->
      let f := sim_sizes m (len (dedup x)) (len (dedup y)) (overlap_sets x y) in
      fin f /\ Rabs (FR f) <= 1073741824) ->
+  (forall x y, list_eqbZ x y = false ->
+     overlap_sets x y = len (dedup x) -> overlap_sets x y = len (dedup y) ->
+     f_round_nd (sim_formula m (len (dedup x)) (len (dedup x)) (len (dedup x))) 4 = f_one) ->
   round_agrees c m.
 Proof.
-  intros Hj H x y Hc. destruct (H x y Hc) as [Hf Hb]. unfold reported_score, raw_score, score4. rewrite Hj.
-  unfold round_score. simpl. rewrite (round4_idem _ Hf Hb). reflexivity.
+  intros Hj H Hself x y Hc.
+  destruct (matcher_raw_cases m x y) as [E|(_ & El & E1 & E2 & _ & E)]; rewrite E.
+  - destruct (H x y Hc) as [Hf Hb]. unfold reported_score, raw_score, score4. rewrite Hj.
+    unfold round_score. simpl. rewrite (round4_idem _ Hf Hb). reflexivity.
+  - unfold reported_score, score4, sim_sizes. rewrite Hj. cbv zeta.
+    rewrite <- E2, E1, !Z.eqb_refl. cbn [andb round_score].
+    rewrite (Hself x y El E1 E2), !round4_one. reflexivity.
 Qed.
 
 (* ------------------------------------------------------------------ comparisons of finite doubles *)
